@@ -97,6 +97,17 @@ Proof.
 Qed.
 
 (** * column-major *)
+Lemma radix_inj : forall x i i' c c', 0 <= i < x -> 0 <= i' < x -> i + x * c = i' + x * c' -> i = i' /\ c = c'.
+Proof.
+  intros x i i' c c' Hi Hi' Heq.
+  assert (Hc : c = c').
+  { destruct (Z_lt_le_dec c c') as [Hlt|Hge].
+    - exfalso. assert (x * (c' - c) >= x) by nia. lia.
+    - destruct (Z_lt_le_dec c' c) as [Hlt'|Hge']; [|lia].
+      exfalso. assert (x * (c - c') >= x) by nia. lia. }
+  subst c'. split; [lia | reflexivity].
+Qed.
+
 Lemma col_major_bounds : forall idx xs, in_range idx xs -> 0 <= col_major xs idx < product xs.
 Proof.
   intros idx xs H. induction H as [|i x ir xr Hix Hr IH].
@@ -106,7 +117,7 @@ Proof.
     generalize dependent (col_major xr ir). generalize (product xr). intros P c Hc.
     assert (H1 : 0 <= x * c) by nia.
     assert (H2 : x * c <= x * (P - 1)) by nia.
-    clear Hr. lia.
+    lia.
 Qed.
 
 Lemma col_major_inj : forall xs idx idx', in_range idx xs -> in_range idx' xs ->
@@ -115,9 +126,10 @@ Proof.
   intros xs idx idx' H. revert idx'. induction H as [|i x ir xr Hix Hr IH]; intros idx' H' Heq.
   - inversion H'. reflexivity.
   - inversion H' as [|i' x' ir' xr' Hix' Hr' E1 E2]; subst.
-    cbn [col_major] in Heq.
-    assert (Hi : i = i') by nia. subst i'.
-    f_equal. apply IH; [exact Hr' | nia].
+    change (col_major (x :: xr) (i :: ir)) with (i + x * col_major xr ir) in Heq.
+    change (col_major (x :: xr) (i' :: ir')) with (i' + x * col_major xr ir') in Heq.
+    destruct (radix_inj x i i' _ _ Hix Hix' Heq) as [Hi Hc]. subst i'.
+    f_equal. apply IH; [exact Hr' | exact Hc].
 Qed.
 
 (** * strides: the Horner forms are sums of index * stride *)
@@ -138,8 +150,9 @@ Qed.
 
 Lemma dot_scale : forall c idx ss, dot idx (map (Z.mul c) ss) = c * dot idx ss.
 Proof.
-  intros c. induction idx as [|i ir IH]; intros ss; destruct ss as [|s sr]; cbn [map dot]; try lia.
-  rewrite IH. ring.
+  intros c. induction idx as [|i ir IH]; intros ss.
+  - cbn. lia.
+  - destruct ss as [|s sr]; cbn [map dot]; [lia|]. rewrite IH. ring.
 Qed.
 
 Lemma dot_strides_right : forall idx xs, length idx = length xs ->
